@@ -23,7 +23,12 @@
 //	        clock, and from the returned context.
 //
 // Burst: BurstN goroutines present the same proof at one instant; admitted =
-// number of them that got past the gate.
+// number of them that got past the gate. While a burst runs, the injected clock
+// yields the processor at every reading, so the goroutines interleave between
+// the clock readings of the code. When the proof was admitted, the burst is
+// repeated a few times on fresh gates of the same configuration with a fresh
+// nonce (exactly one admission each); a deviating round is reported under the
+// same key.
 package proofgate
 
 import (
@@ -34,6 +39,8 @@ import (
 	"fmt"
 	"math/rand"
 	"net/http"
+	"os"
+	"runtime"
 	"strconv"
 	"strings"
 	"sync"
@@ -48,6 +55,23 @@ import (
 
 const urlAlphabet = "ABCDEFGHIJKLMNOPQRSTUVWXYZabcdefghijklmnopqrstuvwxyz0123456789_-"
 
+// Burst settings (process-wide). A burst either releases its goroutines from a
+// channel (cheap) or lets all of them spin on runtime.Gosched until released
+// (about 5x dearer, but the only variant that was seen to expose a check-then-add
+// race which does not read the clock in between); the dear variant is used for
+// the first yieldBudget bursts of a process.
+var (
+	burstCount  atomic.Int64
+	yieldBudget = int64(envInt("PROOFGATE_YIELD_BURSTS", map[string]int{"thorough": 4000}[os.Getenv("VERIF_TIER")]+300))
+)
+
+func envInt(k string, def int) int {
+	if v, err := strconv.Atoi(os.Getenv(k)); err == nil && v >= 0 {
+		return v
+	}
+	return def
+}
+
 type proofC struct {
 	ts    int64  // real timestamp, seconds
 	nonce string // 22 url-safe characters
@@ -57,13 +81,14 @@ type proofC struct {
 type stepper struct {
 	rng *rand.Rand
 
-	skew   int   // model seconds
-	sub    int64 // ticks per model second
-	k      int64 // real seconds per model second
-	t0     int64 // real second of model second 0
-	frac   int64 // constant sub-second offset, ns
-	nowT   atomic.Pointer[time.Time]
-	burstN int
+	skew     int   // model seconds
+	sub      int64 // ticks per model second
+	k        int64 // real seconds per model second
+	t0       int64 // real second of model second 0
+	frac     int64 // constant sub-second offset, ns
+	nowT     atomic.Pointer[time.Time]
+	bursting atomic.Bool
+	burstN   int
 
 	build   string
 	mode    string
@@ -87,6 +112,8 @@ type stepper struct {
 	baseline     string
 	haveBaseline bool
 	tick         int64
+	cfg          vgirpc.ProofConfig
+	stressRounds int
 }
 
 func randString(rng *rand.Rand, n int) string {
@@ -122,6 +149,7 @@ func (s *stepper) Begin(b replay.Behaviour, rng *rand.Rand) error {
 	s.innerK = replay.Str(conf, "inner")
 	s.cacheOn = replay.Bool(conf, "cache")
 	s.capCfg = replay.Int(conf, "cap")
+	s.stressRounds = envInt("PROOFGATE_STRESS_ROUNDS", 2)
 	if s.skew <= 0 || s.sub <= 0 {
 		return fmt.Errorf("bad Init constants %v", a)
 	}
@@ -197,7 +225,15 @@ func (s *stepper) setClock(tick int64) {
 	s.nowT.Store(&t)
 }
 
-func (s *stepper) nowFn() time.Time { return *s.nowT.Load() }
+// nowFn is the injected ProofConfig.Now. During a burst every reading of the
+// clock is also a scheduling point, which spreads the goroutines over the
+// code between two clock readings.
+func (s *stepper) nowFn() time.Time {
+	if s.bursting.Load() {
+		runtime.Gosched()
+	}
+	return *s.nowT.Load()
+}
 
 func (s *stepper) inner() vgirpc.AuthenticateFunc {
 	switch s.innerK {
@@ -473,12 +509,63 @@ func (s *stepper) shadowVerdict(vals []string) (verified any, reason any) {
 	return claims["verified"] == "true", claims["reason"]
 }
 
+// burst presents the header lines vals from n goroutines at once and returns
+// how many of them got past the gate.
+func (s *stepper) burst(gate vgirpc.AuthenticateFunc, vals []string, n int) (int64, string) {
+	var wg sync.WaitGroup
+	var passed, ready, arrived atomic.Int64
+	target := int64(min(n, runtime.GOMAXPROCS(0)))
+	var notes sync.Map
+	var flag atomic.Bool
+	yield := s.cacheOn && burstCount.Add(1) <= yieldBudget
+	start := make(chan struct{})
+	s.bursting.Store(true)
+	for g := 0; g < n; g++ {
+		wg.Add(1)
+		go func() {
+			defer wg.Done()
+			r := request(vals)
+			ready.Add(1)
+			if yield {
+				for !flag.Load() {
+					runtime.Gosched()
+				}
+			} else {
+				<-start
+				// the goroutines that get a processor first wait (bounded) for each other,
+				// so that a processor-full of them enters the gate at the same moment
+				arrived.Add(1)
+				for i := 0; i < 20000 && arrived.Load() < target; i++ {
+				}
+			}
+			ctx, err := gate(r)
+			ok, ans := s.classify(ctx, err)
+			if ok {
+				passed.Add(1)
+			} else if ans != "proxy_required" {
+				notes.Store(ans, true)
+			}
+		}()
+	}
+	for ready.Load() < int64(n) {
+		runtime.Gosched()
+	}
+	flag.Store(true)
+	close(start)
+	wg.Wait()
+	s.bursting.Store(false)
+	note := ""
+	notes.Range(func(k, _ any) bool { note = k.(string); return false })
+	return passed.Load(), note
+}
+
 func (s *stepper) Step(i int, st replay.Step) (replay.Obs, error) {
 	obs := replay.Obs{}
 	switch {
 	case st.A == "Init":
 		s.setClock(int64(replay.Int(st.Args, "now")))
 		cfg := s.config()
+		s.cfg = cfg
 		g, err := vgirpc.ProofAuthenticate(cfg, s.inner())
 		obs["built"] = err == nil && g != nil
 		if err != nil {
@@ -531,31 +618,33 @@ func (s *stepper) Step(i int, st replay.Step) (replay.Obs, error) {
 		n := replay.Int(st.Args, "n")
 		vals := s.token(p, map[string]any{"hdr": "one"})
 		before := s.innerCalls.Load()
-		var wg sync.WaitGroup
-		var passed atomic.Int64
-		var notes sync.Map
-		start := make(chan struct{})
-		for g := 0; g < n; g++ {
-			wg.Add(1)
-			go func() {
-				defer wg.Done()
-				r := request(vals)
-				<-start
-				ctx, err := s.gate(r)
-				ok, ans := s.classify(ctx, err)
-				if ok {
-					passed.Add(1)
-				} else if ans != "proxy_required" {
-					notes.Store(ans, true)
-				}
-			}()
-		}
-		close(start)
-		wg.Wait()
+		passed, note := s.burst(s.gate, vals, n)
+		innerDelta := s.innerCalls.Load() - before
 		s.shadowVerdict(vals) // keep the shadow's cache in step
-		obs["admitted"] = passed.Load()
-		obs["inner"] = s.innerCalls.Load() - before
-		notes.Range(func(k, _ any) bool { obs["__note__"] = k; return false })
+		obs["admitted"] = passed
+		obs["inner"] = innerDelta
+		if note != "" {
+			obs["__note__"] = note
+		}
+		// Stress: the same instant, a fresh gate of the same configuration, a fresh nonce on the
+		// same (currently acceptable) proof - again exactly one of n concurrent presentations
+		// may be admitted. Repeated because a lost race is a matter of scheduling.
+		if passed >= 1 && s.cacheOn && s.mode == "require" {
+			for r := 0; r < s.stressRounds; r++ {
+				g, err := vgirpc.ProofAuthenticate(s.cfg, nil)
+				if err != nil {
+					return nil, fmt.Errorf("stress gate: %v", err)
+				}
+				m := n
+				fresh := proofC{ts: p.ts, nonce: randString(s.rng, 22), kid: p.kid}
+				got, _ := s.burst(g, s.token(fresh, map[string]any{"hdr": "one"}), m)
+				if got != 1 {
+					obs["admitted"] = got
+					obs["__note__"] = fmt.Sprintf("stress round %d on a fresh gate: %d of %d concurrent presentations of one fresh proof admitted", r, got, m)
+					break
+				}
+			}
+		}
 		return obs, nil
 
 	case strings.HasPrefix(st.A, "Gate_") || strings.HasPrefix(st.A, "Cache_") || strings.HasPrefix(st.A, "NoCache_"):
